@@ -177,8 +177,79 @@ def function_paths(fn: ast.AST, unroll: int = 2, max_paths: int = 60000) -> List
     for evs, status in res:
         if status == 'normal':
             evs = evs + (Ev('return', None),)
-        out.append(evs)
+        if feasible(evs):
+            out.append(evs)
     return out
+
+
+def feasible(path: Sequence[Ev]) -> bool:
+    """False when the path takes a branch that contradicts a constant it has just bound itself: after `v = None` (or another literal) and no later
+    assignment to v, the tests `v is None` / `v is not None` / `v` / `not v` / `v == <literal>` have one possible outcome.  Only local names; conservative
+    (anything else is feasible)."""
+    env: dict = {}
+
+    def val(e):
+        """(known, value) of a test expression under env"""
+        if isinstance(e, ast.Constant):
+            return True, e.value
+        if isinstance(e, ast.Name) and e.id in env:
+            return True, env[e.id]
+        if isinstance(e, ast.UnaryOp) and isinstance(e.op, ast.Not):
+            k, v = val(e.operand)
+            return (True, not v) if k else (False, None)
+        if isinstance(e, ast.Compare) and len(e.ops) == 1:
+            k1, a = val(e.left)
+            k2, b = val(e.comparators[0])
+            if k1 and k2:
+                op = e.ops[0]
+                if isinstance(op, ast.Is) and (a is None or b is None):
+                    return True, a is b
+                if isinstance(op, ast.IsNot) and (a is None or b is None):
+                    return True, a is not b
+                try:
+                    if isinstance(op, ast.Eq):
+                        return True, a == b
+                    if isinstance(op, ast.NotEq):
+                        return True, a != b
+                except Exception:
+                    return False, None
+            return False, None
+        if isinstance(e, ast.BoolOp):
+            vals = [val(x) for x in e.values]
+            if isinstance(e.op, ast.And):
+                if any(k and not v for k, v in vals):
+                    return True, False
+                if all(k for k, _ in vals):
+                    return True, all(bool(v) for _, v in vals)
+            else:
+                if any(k and v for k, v in vals):
+                    return True, True
+                if all(k for k, _ in vals):
+                    return True, any(bool(v) for _, v in vals)
+        return False, None
+    for ev in path:
+        n = ev.node
+        if ev.kind == 'test':
+            k, v = val(n)
+            if k and bool(v) != bool(ev.outcome):
+                return False
+        elif ev.kind in ('stmt',) and n is not None:
+            stored = [x.id for x in ast.walk(n) if isinstance(x, ast.Name) and isinstance(x.ctx, (ast.Store, ast.Del))]
+            if isinstance(n, ast.Assign) and len(n.targets) == 1 and isinstance(n.targets[0], ast.Name) and isinstance(n.value, ast.Constant):
+                env[n.targets[0].id] = n.value.value
+            else:
+                for s_ in stored:
+                    env.pop(s_, None)
+        elif ev.kind == 'iter' and n is not None and hasattr(n, 'target'):
+            for x in ast.walk(n.target):
+                if isinstance(x, ast.Name):
+                    env.pop(x.id, None)
+            # a loop body may rebind anything it assigns
+            for b in getattr(n, 'body', []):
+                for x in ast.walk(b):
+                    if isinstance(x, ast.Name) and isinstance(x.ctx, ast.Store):
+                        env.pop(x.id, None)
+    return True
 
 
 # ------------------------------------------------------------------------------------------
